@@ -52,6 +52,33 @@ class TermEncoder:
         self.names = LookupEncoder(lookup_size=lookup_preset.max_names)
         self.prefixes = LookupEncoder(lookup_size=lookup_preset.max_prefixes)
         self.datatypes = LookupEncoder(lookup_size=lookup_preset.max_datatypes)
+        self._name_keys: set[str] = set()
+        self._prefix_keys: set[str] = set()
+        self._datatype_keys: set[str] = set()
+
+    def start_statement(self) -> None:
+        """Forget which lookup entries the previous statement relied on."""
+        self._name_keys.clear()
+        self._prefix_keys.clear()
+        self._datatype_keys.clear()
+
+    def _entry_index(
+        self, table: LookupEncoder, keys: set[str], key: str
+    ) -> int | None:
+        """
+        Get or assign the entry index, refusing to outgrow the table in one statement.
+
+        All entry rows of a statement precede the statement row, so every entry
+        the statement refers to must still be in the table when it ends.
+        """
+        keys.add(key)
+        if len(keys) > table.lookup.max_size:
+            msg = (
+                f"a single statement needs more than {table.lookup.max_size} "
+                "entries of one lookup table"
+            )
+            raise JellyConformanceError(msg)
+        return table.encode_entry_index(key)
 
     def encode_iri_indices(self, iri_string: str) -> tuple[Rows, int, int]:
         """
@@ -67,12 +94,14 @@ class TermEncoder:
         """
         prefix, name = split_iri(iri_string)
         if self.prefixes.lookup.max_size:
-            prefix_entry_index = self.prefixes.encode_entry_index(prefix)
+            prefix_entry_index = self._entry_index(
+                self.prefixes, self._prefix_keys, prefix
+            )
         else:
             name = iri_string
             prefix_entry_index = None
 
-        name_entry_index = self.names.encode_entry_index(name)
+        name_entry_index = self._entry_index(self.names, self._name_keys, name)
         term_rows = []
 
         if prefix_entry_index is not None:
@@ -152,7 +181,9 @@ class TermEncoder:
                     "(its size was set to 0)"
                 )
                 raise JellyConformanceError(msg)
-            datatype_entry_id = self.datatypes.encode_entry_index(datatype)
+            datatype_entry_id = self._entry_index(
+                self.datatypes, self._datatype_keys, datatype
+            )
 
             if datatype_entry_id is not None:
                 entry = jelly.RdfDatatypeEntry(id=datatype_entry_id, value=datatype)
@@ -304,6 +335,7 @@ def encode_triple(
     """
     triple = jelly.RdfTriple()
     terms = iter(terms)
+    term_encoder.start_statement()
     rows = encode_spo(terms, term_encoder, repeated_terms, triple)
     row = jelly.RdfStreamRow(triple=triple)
     rows.append(row)
@@ -329,6 +361,7 @@ def encode_quad(
     """
     terms = iter(terms)
     quad = jelly.RdfQuad()
+    term_encoder.start_statement()
     rows = encode_spo(terms, term_encoder, repeated_terms, quad)
     g = next(terms)
     if repeated_terms[Slot.graph] != g:
@@ -358,6 +391,7 @@ def encode_namespace_declaration(
 
     """
     iri = jelly.RdfIri()
+    term_encoder.start_statement()
     [*rows] = term_encoder.encode_iri(value, iri=iri)
     declaration = jelly.RdfNamespaceDeclaration(name=name, value=iri)
     row = jelly.RdfStreamRow(namespace=declaration)
